@@ -49,7 +49,7 @@ PROPS = {
     'C05': dict(
         title='recency order', level='proof', templates=['l2', 'iter'],
         k_quick=['q_sub_touch_ptr', 'q_sub_touch_ptr_only', 'q_sub_insert_set_head', 'q_sub_lru_mru_ptr', 'q_sub_realloc_grow',
-                 'q_op_clone', 'q_op_retain', 'q_iter_link', 'q_it_iter'],
+                 'q_op_clone', 'q_op_retain', 'q_op_ends', 'q_iter_link', 'q_it_iter'],
         k_thorough=SUB_T + ['t_op_clone', 't_op_retain', 't_iter_link', 't_it_borrowing', 't_frame_debug', 't_framec_touch', 't_framec_get_lru'],
         assumptions=[A_SUB, A_HB, A_DOUBLE, A_EQ, A_MODEL, A_KBOUND,
                      '&self operations cannot change the abstract table value in Verus; that they do not write is C19 (Kani, bounded)'],
@@ -64,7 +64,7 @@ PROPS = {
         design='DESIGN.md §5 C06'),
     'C07': dict(
         title='list/table coherence and memory safety', level='model_checking', templates=['l2'],
-        k_quick=SUB_Q + ['q_op_clear', 'q_op_retain', 'q_op_clone', 'q_drain', 'q_iter_link', 'q_sub_collide', 'q_forget_drain', 'q_cb_try_reallocate'],
+        k_quick=SUB_Q + ['q_op_clear', 'q_op_retain', 'q_op_clone', 'q_op_ends', 'q_drain', 'q_iter_link', 'q_sub_collide', 'q_forget_drain', 'q_cb_try_reallocate'],
         k_thorough=SUB_T + ['t_op_clear', 't_op_retain', 't_op_clone', 't_drain', 't_iter_link', 't_op_clone_diverge_touch', 't_op_clone_diverge_clear', 't_op_clone_diverge_retain'],
         assumptions=[A_DOUBLE, A_HB, A_UNSAFE, A_KBOUND,
                      'caches with thousands of entries are not reached; composite public operations are covered through V (acct after each of them) over these L1 contracts',
